@@ -46,3 +46,15 @@ Proof. vm_compute. repeat split; reflexivity. Qed.
    runs): the active event is still delivered exactly once and first, then the read loop exits *)
 Theorem c05_lifecycle_any_initial_context : forall d prog, life_ok (life_run_ctx d prog) = true.
 Proof. exact life_run_ctx_ok. Qed.
+
+(* synchronous channel (Model/SyncChan.v, replayed against the real channel by h_chan): whatever the
+   number of racing Close calls, programs of the writers, schedule and injected transport failures, the
+   transport is closed at most once and the inactive event fires at most once - after the transport was
+   closed and the context cancelled - with the error of the Close call that won the flag *)
+From GN Require Import Model.SyncChan Proof.SyncChan_proofs.
+Theorem c05_sync_close_once : forall ths sched, sc_wf ths = true ->
+  let s := sc_run (sc_init ths) sched in
+  sc_tclosed s <= 1 /\ length (sc_inactive s) <= 1 /\
+  (forall e, sc_inactive s = [e] -> sc_winner s = Some e /\ sc_tclosed s = 1 /\ sc_ctx s = true).
+Proof. exact sync_close_once. Qed.
+Print Assumptions c05_sync_close_once.
